@@ -145,6 +145,8 @@ func checkC11(c *Ctx, r *Report) {
 	if pa, err := LoadRepo(c.Repo, "amd64"); err == nil {
 		c11Reslice(r, pa, "amd64")
 	}
+	extentPositiveControls(c, r)
+	r.Floor("positive_controls", 2)
 	r.Floor("routines_amd64", 15)
 	r.Floor("routines_arm64", 12)
 	r.Floor("accesses_amd64", 1000)
